@@ -39,6 +39,7 @@ def jobs(tier):
     add("BS", "B", country="generic")
     add("BS", "B", country="es")
     add("BBS", "B", schedule={"2020": "fifo", "2021": "hifo"}, years=(2020, 2021))
+    add("BBS", "B", uid="same")  # partial fills sharing one order id: several transactions of one asset with the same unique id
     if tier == "thorough":
         add("BBS", "B", filt="from", method="lifo")
         for c1 in ["BSM", "BBSS", "BISS"]:
@@ -54,7 +55,7 @@ def jobs(tier):
 
 
 def describe(spec):
-    return "B1=%s B2=%s %s filter=%s %s %s" % (spec["c1"], spec["c2"], ",".join("%s:%s" % kv for kv in sorted(spec["schedule"].items())), spec["filter"], spec["country"], "-".join(map(str, spec["years"])))
+    return "B1=%s B2=%s %s filter=%s %s %s" % (spec["c1"], spec["c2"], ",".join("%s:%s" % kv for kv in sorted(spec["schedule"].items())), spec["filter"], spec["country"], "-".join(map(str, spec["years"]))) + (" uid=" + spec["uid"] if spec.get("uid") else "")
 
 
 def weight(spec):
@@ -119,6 +120,8 @@ def run(S, spec):
     for i, s in enumerate(s1):
         s["row"] = 10 + i
         s["ho"] = "H1" if i % 2 == 0 else "H2"
+        if spec.get("uid") == "same":
+            s["uid"] = "order-77"
     for i, s in enumerate(s2):
         s["row"] = 10 + i  # same sheet rows as asset B1
     h1 = Hist(S, s1, years, prefix="x")
